@@ -220,6 +220,20 @@ def rules(ctx):
                     inner = f[1][4:-1]
                     if base in inner:
                         ok = True
+        # the guarded collection must not be re-assigned between the guard and the reducer
+        if ok:
+            base0 = it.replace('.items()', '').replace('.keys()', '').replace('.values()', '')
+            for t, pol, o in g.edge_dominators(st):
+                fs = compare_atoms(t, pol)
+                relevant = any(f[0] == 'truthy' and (f[1] == it or (f[1].startswith('any(') and base0 in f[1])) for f in fs if len(f) == 2)
+                if not relevant:
+                    continue
+                for n_ in g.stmts():
+                    if n_ is st or n_ is o:
+                        continue
+                    if isinstance(n_, ast.Assign) and any(src(t_) == base0 for t_ in n_.targets) and \
+                            g.reaches(o, n_) and g.reaches(n_, st):
+                        ok = False
         ctx.inst('R15.4', fn, c, ok and bool(zero_rets),
                  "reducer over `%s`%s is dominated by a non-emptiness guard with a (0, 0) return" % (it, ' (filtered)' if gen.ifs else '') if ok else
                  "`%s` can be evaluated on an empty %s domain (no dominating guard on `%s`%s): raises instead of "
